@@ -37,6 +37,8 @@ def letters_for(model):
         out += [["CNOT", "e", 0, "p", 0], ["MCR", "e", 0, "p", 0, 0], ["CCNOT", "e", 0, "p", 0, 0]]
     if ne >= 2:
         out += [["CNOT", "e", 0, "e", 1], ["CNOT", "e", 1, "e", 0], ["1", "P", "e", 1]]
+    if ne >= 2 and npn:
+        out += [["CNOT", "e", 1, "p", 0], ["MCR", "e", 1, "p", 0, 0]]
     # register-adding letters (next unused index) and one beyond (must be refused, nothing may change)
     out += [["1", "X", "e", ne], ["1", "H", "p", npn]]
     if ne:
@@ -91,6 +93,10 @@ def apply_event_real(circ, ev):
     k = ev[0]
     if k == "add":
         circ.add(gq.make_op(ev[1]))
+    elif k == "addF":
+        op = gq.make_op(ev[1])
+        op.add_labels("Fixed")
+        circ.add(op)
     elif k == "insert":
         edges = []
         for t, r, idx in ev[2]:
@@ -116,7 +122,7 @@ def apply_event_real(circ, ev):
 
 def apply_event_model(m, ev):
     k = ev[0]
-    if k == "add":
+    if k in ("add", "addF"):
         m.add(ev[1])
     elif k == "insert":
         m.insert(ev[1], {(t, r): idx for t, r, idx in ev[2]})
@@ -282,6 +288,8 @@ def events(circ, m):
     letters = letters_for(m)
     for l in letters:
         evs.append(("add", l))
+    if letters and m.can_ensure(letters[0]):
+        evs.append(("addF", letters[0]))  # an operation carrying an extra label, as the solvers' "Fixed" operations do
     for l in letters:
         if not m.can_ensure(l):
             continue
@@ -353,7 +361,7 @@ def expand(blob, tier, acc):
             except Exception as e:
                 acc.violation("compat", "find_incompatible_edges", "raises-" + type(e).__name__, case, "a set", repr(e)[:200])
                 continue
-        legal = ev[0] not in ("add", "insert") or m.can_ensure(ev[1])
+        legal = ev[0] not in ("add", "addF", "insert") or m.can_ensure(ev[1])
         try:
             apply_event_real(circ, ev)
         except Exception as e:
